@@ -42,6 +42,16 @@ def gen_cases(ctx):
         for _ in range(100):
             n, m = rng.randrange(2, 8), rng.randrange(2, 8)
             mk("heisenberg_2d", n, m, [rparam(rng) for _ in range(5)]); mk("ising_2d", n, m, [rparam(rng)], h=[rparam(rng) for _ in range(n * m)], j=[rparam(rng) for _ in range(2 * n * m)])
+    # coefficients that cancel exactly when added up (per site and overall) but are not zero: every term must still be there
+    for n, m in ((2, 2), (3, 3), (2, 4)):
+        mk("ising_2d", n, m, [1.0], h=[1.0] * (n * m), j=[-0.5] * (2 * n * m))
+        mk("ising_2d", n, m, [0.7], h=[0.0] * (n * m), j=[1.0, -1.0] * (n * m))
+        mk("ising_2d", n, m, [1.0], h=[rng.choice([2.0, -2.0, 0.5]) for _ in range(n * m)], j=None)
+        cases[-1]["j"] = [float2bits(-bits2float(hh) / 2) for hh in cases[-1]["h"] for _ in (0, 1)]
+        mk("ising_2d_uniform", n, m, [-2.0, 1.0, 1.0]); mk("heisenberg_2d", n, m, [1.0, -2.0, 1.0, 0.0, 1.0]); mk("heisenberg_2d", n, m, [1.0, 1.0, 1.0, -3.0, 1.0])
+    for n in (2, 3, 5):
+        mk("ising_1d", n, 0, [1.0], h=[1.0] * n, j=[-1.0] * n); mk("ising_1d_uniform", n, 0, [-1.0, 1.0, 1.0])
+        mk("heisenberg_1d", n, 0, [1.0, -2.0, 1.0, 0.0, 1.0]); mk("heisenberg_1d", n, 0, [1.0, 1.0, 1.0, -3.0, 1.0])
     # thread-count sweep on fixed shapes (chunk boundaries incl. n < threads and n not divisible)
     for t in range(1, 17):
         mk("heisenberg_1d", 7, 0, [1.0, -0.5, 2.0, 0.3, 1.1], threads=t); mk("ising_1d_uniform", 33, 0, [0.7, 1.3, 0.9], threads=t)
